@@ -166,7 +166,7 @@ def clause_b(ctx, fx, U):
                             line=e["line"])
             else:
                 ctx.ok("C01.b", fn, "err-exit", "Err is conditioned on a digest, a disclosure, a placeholder object or a callee's failure — not on the container's shape alone", line=e["line"])
-    ctx.floor("C01.b", "Err exits classified", nerr, 5)
+    ctx.floor("C01.b", "Err exits classified", nerr, 3)
 
 
 def clause_c(ctx, fx, U):
